@@ -121,4 +121,8 @@ FIXED_BY_SUBJECT = {
    ('C19', 'after an out-of-order fill, sort(key=...) with a key that ties distinct members left the ties in order of assignment instead of positional order: [0, 6, 0, 2] stored backwards and sorted by v // 3 gave [2, 0, 0, 6] instead of [0, 0, 2, 6]')],
  "fix: decoders leaked ValueError when an error message had to print a huge integer": [
    ('C08', 'under the interpreter default (sys.get_int_max_str_digits() == 4300, which the harness had switched off for its own arithmetic) an INTEGER of 1900 octets against INTEGER (0..10) / SEQUENCE (SIZE (2..3)) OF INTEGER, or any element whose tag number is spelled with 2100 continuation octets, made every decoder raise ValueError: the constraint violation message and the not-in-asn1Spec message print the number (reported by a seeding sub-agent as a side remark; C08 gained arm (vi), which runs the decoders under the default limit on integer-valued fields beyond 4300 digits)')],
+ "fix: CER/DER left out an empty OPTIONAL SEQUENCE OF without checking its constraints": [
+   ('C14', 'SEQUENCE { a INTEGER, x [5] SEQUENCE (SIZE (2..2)) OF INTEGER OPTIONAL } with x present and empty: the CER and DER encoders accepted (and silently omitted) the member that violates its SIZE constraint, the BER and native encoders refused it (found when seeded change C14f made C14 place constrained lists inside enclosing values and call all four encoders)')],
+ "fix: a flat run of constructed headers made the decoder recurse until RecursionError escaped": [
+   ('C08', 'b"\\x30\\x02" * 600 (also a0 02, 31 02, 24 02, 23 02, a0 00 runs): nested two deep when the lengths are respected, decoded with one recursion level per header, RecursionError escaped from one-shot and streaming decoders of all three codecs (reported by a seeding sub-agent as a side remark for a0 00; C08 gained arm (viii), flat runs of constructed headers with lying lengths)')],
 }
